@@ -26,10 +26,15 @@ CHECKS = {
    text='Each public operation of WaitableOperation (poll, re-poll, delivery, cancel, drop, cross-task move) is checked from every reachable abstract state against a ledger-keeping mock task with fully symbolic start/delivered/cancel codes and both task ABI versions: registered exactly once while pending, removed from every task before cancel/drop, completion processed exactly once, no registration survives the value.',
    note='Trusted: mock host/task (what the ABI permits), abstract WaitableOp (concrete ops are C19-C21), Kani/CBMC, x86-64 vs wasm32. SharedTaskState::waitable_register/unregister are covered under C22.'),
  'C19': dict(
-   engine='kani', category='proof', design_ref='DESIGN.md §2 C19',
+   engine='kani', category='other', design_ref='DESIGN.md §2 C19',
    technique='contract harnesses on the real AbiBuffer / RawStreamWriter / RawStreamReader operations (Kani/CBMC), all ABI-permitted codes enumerated per buffer length',
-   text='Per-operation contracts: AbiBuffer lowers each value once in order, advance(k) releases exactly the k transferred items once, into_vec/drop recover exactly the untransferred suffix once; a stream write/read reports exactly the host count for every permitted code whether it arrives at once, through the task, or from cancel; done-flag behaviour after peer drop; handles dropped once.',
+   text='BOUNDED contract checking, not a proof: every obligation but one fixes the buffer length (0..=3 items, spare capacity <= 2) and is complete only for that length, so the level is "other" (bounded stand-in), as the brief requires. Per-operation contracts: AbiBuffer lowers each value once in order, advance(k) releases exactly the k transferred items once, into_vec/drop recover exactly the untransferred suffix once; a stream write/read reports exactly the host count for every permitted code whether it arrives at once, through the task, or from cancel; done-flag behaviour after peer drop; handles dropped once.',
    note='BOUNDED in buffer length (<=3 items / spare capacity <=2) — these obligations are listed as bounded, not proved; only take_handle is unbounded. write_all/collect loops and the futures::Stream adapter are not covered. Trusted: mock StreamOps, mock host.'),
+ 'C24': dict(
+   engine='kani', category='proof', design_ref='DESIGN.md §2 C24',
+   technique='contract harnesses (Kani/CBMC) on cabi_realloc extracted verbatim each run, allocator replaced by GlobalAlloc-contract stubs with a ghost ledger; real Cleanup driven in place',
+   text='PARTIAL. Proved for all four usize arguments (loop-free, unbounded): cabi_realloc returns a non-null pointer aligned as requested, returns the alignment value itself for a zero-sized fresh allocation, calls the allocator only inside the GlobalAlloc contract (never zero size, realloc only with the layout the block was allocated with) and aborts instead of returning null. BOUNDED stand-ins, not counted as proved: contents preserved up to the smaller size (blocks of 1..=8 bytes on Kani\'s allocator model); Cleanup::new is null with no guard exactly when the size is zero, its block is freed exactly once with the same layout, forget does not free (layout size <= 6 because of the poison loop).',
+   note='Per-request contract; a request sequence is a composition of calls each of which meets its precondition because the previous result met its postcondition. Assumed host precondition (the code states it as a debug_assert): a live block is never resized to zero. Not covered: the cabi_dealloc item emitted as text by crates/rust/src/lib.rs; the wit_bindgen_cabi_realloc.rs C-symbol forwarder. Trusted: the global allocator honours GlobalAlloc; 64-bit usize stands in for wasm32. The contract-form counterexample is not replayed natively (allocator stubs are not applied by concrete playback); the contents/Cleanup ones are.'),
  'C20': dict(
    engine='kani', category='proof', design_ref='DESIGN.md §2 C20',
    technique='contract harnesses on the real future write/read operations and typed wrappers (Kani/CBMC), complete enumeration of (operation, arrival, code)',
@@ -67,7 +72,7 @@ NOT_APPLICABLE = {
 }
 # planned but not built yet: listed as not_applicable until their check exists
 PENDING = {k: 'check not built yet in this session (planned: DESIGN §7)' for k in
-           ['C04','C07','C14','C22','C23','C24']}
+           ['C04','C07','C14','C22','C23']}
 
 def main():
     props = [json.loads(l) for l in open(os.path.join(HERE, 'properties.jsonl'))]
